@@ -647,18 +647,19 @@ def mr_features(pred, lines, idx, start, detail):
         got = sorted(d["c"] for d in e.get("rx", []))
         f.update({"expected": exp, "got": got, "x": e.get("x"), "kd": e.get("kd")})
         shape = "other"
-        if exp > 0 and not got:
-            k = canon(e.get("x"))
-            for i in range(idx, start, -1):
-                was = exp in listed_conns(lines[i - 1]["post"]) or lines[i - 1]["post"]["amap"].get(k) == exp
-                now = exp in listed_conns(lines[i]["post"]) or lines[i]["post"]["amap"].get(k) == exp
-                lost = (exp in listed_conns(lines[i - 1]["post"]) and exp not in listed_conns(lines[i]["post"])) or \
-                       (lines[i - 1]["post"]["amap"].get(k) == exp and lines[i]["post"]["amap"].get(k) != exp)
-                if lost:
-                    if lines[i]["ev"] in ("CloseOp", "CloseConn") and lines[i].get("c") != exp:
-                        shape = "close of one connection unlisted another connection of the same ufrag"
-                    break
-                _ = (was, now)
+        k = canon(e.get("x"))
+        # connections that left the tables because a *different* connection was closed (its watcher removes by ufrag)
+        victims = set()
+        for i in range(start + 1, idx + 1):
+            if lines[i]["ev"] in ("CloseOp", "CloseConn"):
+                lost = listed_conns(lines[i - 1]["post"]) - listed_conns(lines[i]["post"]) - {lines[i].get("c")}
+                victims |= lost
+        bound = pre["amap"].get(k, 0)
+        if victims & (set(got) | {exp}):
+            shape = "close of one connection unlisted another connection of the same ufrag"
+        elif bound and bound not in listed_conns(pre):
+            # the dispatcher found a binding to a connection that is no longer listed: how did that binding come about?
+            shape = mr_binding_shape(lines, start, idx - 1, bound, k)
         f["shape"] = shape
     else:
         f.update({k: e[k] for k in ("x", "kd", "c", "u") if k in e})
